@@ -145,6 +145,11 @@ impl Array8 {
         self.estimator.hip_accum()
     }
 
+    /// The estimator state (HIP accumulator, KxQ registers, out-of-order flag)
+    pub(super) fn estimator(&self) -> &HipEstimator {
+        &self.estimator
+    }
+
     /// Whether the estimator is out of order, i.e. its HIP accumulator is not valid
     pub(super) fn is_out_of_order(&self) -> bool {
         self.estimator.is_out_of_order()
